@@ -552,6 +552,42 @@ pub enum StdoutMode
     Closed,
 }
 
+thread_local! {
+    /// Give the subject a terminal (the slave side of a fresh pseudo-terminal) as standard input
+    /// instead of /dev/null, for the runs started by this thread.
+    pub static STDIN_TTY: std::cell::Cell<bool> = const { std::cell::Cell::new(false) };
+}
+
+/// (master, slave) of a new pseudo-terminal, both close-on-exec, the slave opened without becoming a controlling terminal.
+fn open_pty() -> Option<(i32, i32)>
+{
+    unsafe {
+        let m = libc::posix_openpt(libc::O_RDWR | libc::O_NOCTTY | libc::O_CLOEXEC);
+        if m < 0
+        {
+            return None;
+        }
+        if libc::grantpt(m) != 0 || libc::unlockpt(m) != 0
+        {
+            libc::close(m);
+            return None;
+        }
+        let mut name = [0 as libc::c_char; 128];
+        if libc::ptsname_r(m, name.as_mut_ptr(), name.len()) != 0
+        {
+            libc::close(m);
+            return None;
+        }
+        let sl = libc::open(name.as_ptr(), libc::O_RDWR | libc::O_NOCTTY | libc::O_CLOEXEC);
+        if sl < 0
+        {
+            libc::close(m);
+            return None;
+        }
+        Some((m, sl))
+    }
+}
+
 pub fn run_breadlog(spec: &RunSpec) -> RunResult
 {
     run_breadlog_with(spec, StdoutMode::Piped)
@@ -595,7 +631,25 @@ pub fn run_breadlog_with(spec: &RunSpec, stdout_mode: StdoutMode) -> RunResult
     {
         None
     };
-    cmd.stdin(Stdio::null()).stderr(Stdio::piped());
+    cmd.stderr(Stdio::piped());
+    let mut pty_master: Option<i32> = None;
+    if STDIN_TTY.with(|c| c.get())
+    {
+        match open_pty()
+        {
+            Some((m, sl)) =>
+            {
+                use std::os::unix::io::FromRawFd;
+                pty_master = Some(m);
+                cmd.stdin(unsafe { Stdio::from_raw_fd(sl) });
+            },
+            None => drop(cmd.stdin(Stdio::null())),
+        }
+    }
+    else
+    {
+        cmd.stdin(Stdio::null());
+    }
     match stdout_mode
     {
         StdoutMode::Piped | StdoutMode::Closed => drop(cmd.stdout(Stdio::piped())),
@@ -654,6 +708,12 @@ pub fn run_breadlog_with(spec: &RunSpec, stdout_mode: StdoutMode) -> RunResult
     }
     let err = th.join().unwrap_or_default();
     let status = child.wait().expect("wait breadlog");
+    if let Some(m) = pty_master
+    {
+        unsafe {
+            libc::close(m);
+        }
+    }
     let wall = t0.elapsed();
     RUNNING.lock().unwrap().retain(|(p, _)| *p != pid);
     let timed_out = {
